@@ -261,6 +261,13 @@ pub fn execute_sequences(scratch: &mut DecoderScratch) -> (r: Result<(), Execute
 {
         let seq = scratch.sequences[idx];
 
+        // A block must not regenerate more than MAX_BLOCK_SIZE bytes. Check before copying anything
+        // so corrupted data can not make the buffer grow without bounds (and seq_sum can not overflow).
+        let block_size = u64::from(seq_sum) + u64::from(seq.ll) + u64::from(seq.ml);
+        if block_size > u64::from(MAX_BLOCK_SIZE) {
+            return Err(ExecuteSequencesError::BlockSizeTooLarge { size: block_size });
+        }
+
         if seq.ll > 0 {
             let high = literals_copy_counter + seq.ll as usize;
             if high > scratch.literals_buffer.len() {
@@ -304,16 +311,12 @@ pub fn execute_sequences(scratch: &mut DecoderScratch) -> (r: Result<(), Execute
         seq_sum += seq.ml;
         seq_sum += seq.ll;
     }
-
-    // A block must not regenerate more than MAX_BLOCK_SIZE bytes. The regenerated size is the sum over
-    // all sequences plus the literals left over after the last one, so validate it once here instead
-    // of paying for the comparison on every iteration of the hot loop above.
-    let rest_literals = &scratch.literals_buffer[literals_copy_counter..];
-    let block_size = u64::from(seq_sum) + rest_literals.len() as u64;
-    if block_size > u64::from(MAX_BLOCK_SIZE) {
-        return Err(ExecuteSequencesError::BlockSizeTooLarge { size: block_size });
-    }
-    if !rest_literals.is_empty() {
+    if literals_copy_counter < scratch.literals_buffer.len() {
+        let rest_literals = &scratch.literals_buffer[literals_copy_counter..];
+        let block_size = u64::from(seq_sum) + rest_literals.len() as u64;
+        if block_size > u64::from(MAX_BLOCK_SIZE) {
+            return Err(ExecuteSequencesError::BlockSizeTooLarge { size: block_size });
+        }
         scratch.buffer.push(rest_literals);
         seq_sum += rest_literals.len() as u32;
     }
